@@ -38,9 +38,33 @@ def refs_in(F, e):
 
 def bounded_for(P, F, loop):
     """(ok, description or reason)"""
+    init = loop["c"][0]
+    if init is not None and init.get("k") == "DeclStmt" and len(init["c"]) > 1:
+        # several variables declared in the header (`for (i = 0, j = n - 1; i < n; j = i, ++i)`): the induction variable is the one
+        # the condition bounds; the others only trail it
+        last = (False, "no single induction variable in the init statement")
+        for v in init["c"]:
+            if v.get("k") == "VarDecl":
+                last = _bounded_for(P, F, loop, v["r"])
+                if last[0]:
+                    return last
+        return last
+    return _bounded_for(P, F, loop, None)
+
+
+def _comma_parts(e):
+    e = sc(e)
+    if e is not None and e.get("k") == "BinaryOperator" and e.get("op") == ",":
+        return _comma_parts(e["c"][0]) + _comma_parts(e["c"][1])
+    return [e] if e is not None else []
+
+
+def _bounded_for(P, F, loop, iv_forced):
     init, cond, inc, body = loop["c"]
-    iv = None
-    if init is not None and init.get("k") == "DeclStmt" and len(init["c"]) == 1:
+    iv = iv_forced
+    if iv is not None:
+        pass
+    elif init is not None and init.get("k") == "DeclStmt" and len(init["c"]) == 1:
         iv = init["c"][0]["r"]
     elif init is not None and init.get("k") == "BinaryOperator" and init.get("op") == "=" and sc(init["c"][0]).get("k") == "DeclRefExpr":
         iv = sc(init["c"][0])["r"]
@@ -81,6 +105,15 @@ def bounded_for(P, F, loop):
     if direction is None:
         return False, "condition %s does not bound the induction variable by < <= > >=" % norm.render(P, cond)
     i = sc(inc) if inc is not None else None
+    if i is not None and i.get("k") == "BinaryOperator" and i.get("op") == ",":
+        parts = _comma_parts(i)
+        stepping = [p_ for p_ in parts if (p_.get("k") == "UnaryOperator" and p_.get("op") in ("++", "--") and astq.is_ref_to(p_["c"][0], iv))
+                    or (p_.get("k") == "CompoundAssignOperator" and astq.is_ref_to(p_["c"][0], iv))]
+        others = [p_ for p_ in parts if not any(p_ is q_ for q_ in stepping)]
+        if len(stepping) != 1 or any(p_.get("k") in ("BinaryOperator", "CompoundAssignOperator") and astq.is_ref_to(sc(p_["c"][0]), iv) for p_ in others) \
+                or any(y.get("k") == "UnaryOperator" and y.get("op") in ("++", "--") and astq.is_ref_to(y["c"][0], iv) for p_ in others for y in F.walk(p_)):
+            return False, "increment %s does not step the induction variable exactly once" % norm.render(P, inc)
+        i = stepping[0]
     step = None
     if i is not None and i.get("k") == "UnaryOperator" and i.get("op") in ("++", "--") and astq.is_ref_to(i["c"][0], iv):
         step = 1 if i["op"] == "++" else -1
